@@ -198,6 +198,17 @@ func c16Eval(c c16Case) (class, detail string) {
 		if cl, d := c16LastModifiedHeaders(t); cl != "" {
 			return cl, d
 		}
+	case "time/accept":
+		// the obsolete forms are part of the HTTP-date grammar: a recipient reads all three (RFC 7231 7.1.1.1)
+		var want int64
+		fmt.Sscan(c.Aux, &want)
+		var got internal.Time
+		if err := got.UnmarshalText([]byte(c.In)); err != nil {
+			return "refused-in-grammar", fmt.Sprintf("UnmarshalText(%q): %v", c.In, err)
+		}
+		if time.Time(got).Unix() != want {
+			return "altered", fmt.Sprintf("UnmarshalText(%q) -> %v want %v", c.In, time.Time(got).UTC(), time.Unix(want, 0).UTC())
+		}
 	case "time/reject":
 		var got internal.Time
 		if err := got.UnmarshalText([]byte(c.In)); err == nil {
@@ -616,6 +627,12 @@ func c16Cases(full bool) []c16Case {
 			add("caldate", "roundtrip", fmt.Sprint(u), zn)
 		}
 	}
+	for _, tx := range []string{"Sun, 06 Nov 1994 08:49:37 GMT", "Sunday, 06-Nov-94 08:49:37 GMT", "Sun Nov  6 08:49:37 1994"} {
+		add("time", "accept", tx, "784111777")
+	}
+	add("time", "accept", "Thu, 01 Jan 1970 00:00:00 GMT", "0")
+	add("time", "accept", "Friday, 31-Dec-99 23:59:59 GMT", "946684799")
+	add("time", "accept", "Fri Dec 31 23:59:59 1999", "946684799")
 	valid := "Sun, 06 Nov 1994 08:49:37 GMT"
 	for _, s := range editNeighbours(valid, []string{" ", "0", "9", ":", "G", "x"}) {
 		if !inHTTPDateGrammar(s) {
